@@ -51,6 +51,15 @@ Theorem reported_series_distinct : forall c ops walks t, (1 <= c_limit c)%nat ->
 Proof. exact (fun c ops walks t => reported_series_distinct_lemma c ops walks t). Qed.
 Print Assumptions reported_series_distinct.
 
+(* ---- and no series appears out of thin air: every attribute set of every report of every history is the overflow set or the
+   filtered set of a measurement that was recorded (whose keys are, by filter_by_full_key, exactly its allowed keys) *)
+Theorem reported_sets_are_recorded_sets : forall c ops walks t e,
+  In (CReport t) (run_ops c ops walks (init_storage c)) -> In e t ->
+  fst e = overflow_attrs \/ (exists v, In (ORec0 v) ops /\ fst e = []) \/
+  exists kvs v, In (ORec kvs v) ops /\ fst e = mk_attrs (c_filter c) kvs.
+Proof. exact reported_sets_recorded_lemma. Qed.
+Print Assumptions reported_sets_are_recorded_sets.
+
 (* ---- "the order in which the caller lists the keys, and duplicates resolved last-wins, make no difference" *)
 Theorem order_insensitive_last_wins :
   (forall f a b, NoDup (map fst a) -> Permutation a b -> mk_attrs f a = mk_attrs f b) /\
